@@ -45,11 +45,45 @@ pub struct NdJson {
     pub lines: u64,
 }
 
+// ---------------------------------------------------------------------------------------------------
+// Watchdog of the synchronous drivers.  Every driver writes one event per call into the code under test; a
+// driver that writes nothing for WATCHDOG_SECS is stuck inside such a call (an endless loop in the code under
+// test).  That is data, not a tool failure: the process reports `code_hang` with the last event written and
+// exits with status 4; the orchestrator turns it into a violation of the property being checked.
+pub static WATCHDOG_SECS: std::sync::atomic::AtomicU64 = std::sync::atomic::AtomicU64::new(300);
+static LAST_PUT: std::sync::atomic::AtomicU64 = std::sync::atomic::AtomicU64::new(0);
+static LAST_LINE: std::sync::Mutex<String> = std::sync::Mutex::new(String::new());
+static WD_STARTED: std::sync::atomic::AtomicBool = std::sync::atomic::AtomicBool::new(false);
+fn now_secs() -> u64 {
+    std::time::SystemTime::now().duration_since(std::time::UNIX_EPOCH).map(|d| d.as_secs()).unwrap_or(0)
+}
+fn arm_watchdog() {
+    use std::sync::atomic::Ordering::Relaxed;
+    LAST_PUT.store(now_secs(), Relaxed);
+    if WD_STARTED.swap(true, Relaxed) {
+        return;
+    }
+    if let Some(v) = std::env::var("HV_WATCHDOG_SECS").ok().and_then(|v| v.parse().ok()) {
+        WATCHDOG_SECS.store(v, Relaxed);
+    }
+    std::thread::spawn(|| loop {
+        std::thread::sleep(std::time::Duration::from_secs(2));
+        let t = LAST_PUT.load(Relaxed);
+        let limit = WATCHDOG_SECS.load(Relaxed);
+        if t > 0 && now_secs().saturating_sub(t) > limit {
+            let last = LAST_LINE.lock().map(|l| l.clone()).unwrap_or_default();
+            println!("{}", serde_json::json!({"code_hang": true, "secs": limit, "last_event": last}));
+            std::process::exit(4);
+        }
+    });
+}
+
 impl NdJson {
     pub fn create(path: &str) -> Self {
         if let Some(dir) = std::path::Path::new(path).parent() {
             let _ = std::fs::create_dir_all(dir);
         }
+        arm_watchdog();
         NdJson {
             w: std::io::BufWriter::new(std::fs::File::create(path).expect("create output")),
             lines: 0,
@@ -65,12 +99,24 @@ impl NdJson {
         self.w.flush().unwrap();
     }
     pub fn put(&mut self, v: &Value) {
-        serde_json::to_writer(&mut self.w, v).unwrap();
+        let line = serde_json::to_string(v).unwrap();
+        self.w.write_all(line.as_bytes()).unwrap();
         self.w.write_all(b"\n").unwrap();
         self.lines += 1;
+        LAST_PUT.store(now_secs(), std::sync::atomic::Ordering::Relaxed);
+        if let Ok(mut l) = LAST_LINE.try_lock() {
+            l.clear();
+            let mut n = line.len().min(300);
+            while !line.is_char_boundary(n) {
+                n -= 1;
+            }
+            l.push_str(&line[..n]);
+        }
     }
     pub fn finish(mut self) {
         self.w.flush().unwrap();
+        // (the driver is done with this file; a later put re-arms the watchdog)
+        LAST_PUT.store(0, std::sync::atomic::Ordering::Relaxed);
     }
 }
 
